@@ -12,6 +12,8 @@ number of transport data bytes the announcing side can receive:
 64 / 128 / 192 / 254.
 """
 import hashlib
+import os
+import traceback
 
 import nfc.clf
 import nfc.dep
@@ -373,3 +375,19 @@ class Pair(object):
                             step_budget=step_budget)
         finally:
             vsched.Sched = orig
+
+
+def nfc_frame(exc):
+    """(exception type name, innermost nfcpy frame "module:function") of an
+    exception that passed through nfcpy; frames of the simulated driver
+    below it are skipped (a TimeoutError is born in SimDevice)"""
+    found = ""
+    for fs in traceback.extract_tb(exc.__traceback__):
+        fn = fs.filename.replace("\\", "/")
+        if "/nfc/" in fn and "/vlib/" not in fn and "/src/nfc/" in fn:
+            mod = "nfc" + os.path.splitext(fn)[0].split("/src/nfc", 1)[-1]
+            mod = mod.replace("/", ".")
+            if mod.endswith(".__init__"):
+                mod = mod[:-9]
+            found = "%s:%s" % (mod, fs.name)
+    return type(exc).__name__, found
